@@ -34,14 +34,14 @@ def query_side(ctx, h, res):
     fn = h.fn(NB)
     C = c04.consts(h)
     n = 0
-    for cls, pos, d, uh, filt in itertools.product(c04.KINDS, c04.POS, c04.DIRS[:3], c04.UHS, c04.FILTERS[:3]):
+    for cls, pos, d, uh, filt in itertools.product(c04.KINDS, c04.POS, c04.DIRS[:3], c04.UHS, c04.FILTERS[:3] + ("accept-unhashable",)):
         outs = []
         try:
             for caching in (False, True):
                 h.reset()
                 a, links, others = c04.build(h, [(cls, pos)])
                 set_flag(h, caching)
-                cb = c04.mkfilter(filt)
+                cb = c04.cbval(c04.mkfilter(filt, h=h))
                 o1 = h.call(fn, a, C[d], C[uh], cb)
                 o2 = h.call(fn, a, C[d], C[uh], cb)
                 outs.append((o1, o2, others[0]))
@@ -56,7 +56,8 @@ def query_side(ctx, h, res):
         res.ob(ok, sig=("q", cls, pos, d, uh, filt), sample={"link": cls, "vert_is": pos, "direction": d, "unknown": uh, "filter": filt,
                                                               "caching_off": g(off[0], off[2]), "cold": g(on[0], on[2]), "warm": g(on[1], on[2])})
         if not ok:
-            res.violation("CACHED-EQ", NB, f"kind={c04.KINDS[cls]},dir={d},unknown={uh},filter={filt}",
+            raises = on[0].kind == "raise" and off[0].kind == "return"
+            res.violation("CACHED-EQ", NB, (f"caching-raises-{on[0].excname},filter={filt}" if raises else f"kind={c04.KINDS[cls]},dir={d},unknown={uh},filter={filt}"),
                           f"caching on gives cold={g(on[0], on[2])!r} warm={g(on[1], on[2])!r}, caching off gives {g(off[0], off[2])!r}")
     res.rule("CACHED-EQ", n)
     # semantic KEY: a warm entry is only ever used for the same settings
@@ -249,7 +250,7 @@ def run(ctx):
     invalidation(ctx, h, res)
     registry(ctx, h, res)
     only_neighbors(ctx, res)
-    common.vacuity(res, "CACHED-EQ", 405)
+    common.vacuity(res, "CACHED-EQ", 540)
     key_args_rule(ctx, res)
     common.vacuity(res, "KEY", 300)
     common.vacuity(res, "INVALIDATE", 5000)
